@@ -125,8 +125,17 @@ def gen_command(rng):
     return 'sh cmd.sh' + rng.choice(CMD_ARGS)
 
 
-def run_gentest(d, script='test_cmd.py', flags=(), refs=('outdir',), command='sh cmd.sh'):
-    cmd = [PY, '-c', 'import sys; from tdda.referencetest.gentest import gentest_wrapper; gentest_wrapper(sys.argv[1:])']
+OFFLINE = ('import socket\n'
+           'def _unresolvable(*a, **k):\n'
+           '    raise socket.gaierror(-2, "Name or service not known")\n'
+           'socket.gethostbyname = _unresolvable\n')
+
+
+def run_gentest(d, script='test_cmd.py', flags=(), refs=('outdir',), command='sh cmd.sh', offline=False):
+    """offline=True: generation happens on a machine whose own host name does not resolve (a laptop off the
+    network, a container without an /etc/hosts entry)"""
+    cmd = [PY, '-c', (OFFLINE if offline else '') +
+           'import sys; from tdda.referencetest.gentest import gentest_wrapper; gentest_wrapper(sys.argv[1:])']
     cmd += list(flags) + [command, script] + list(refs)
     p = subprocess.run(cmd, cwd=d, env=env_for(d), stdout=subprocess.PIPE, stderr=subprocess.STDOUT, text=True,
                        errors='replace', timeout=300)
